@@ -290,12 +290,13 @@ let () =
 
 let () =
   register "C20T" (fun i o -> match i, o with
-    | [mode], [out; cls; closed] ->
+    | [mode], (out :: cls :: closed :: rest) ->
       if out = "hang" then Viol "wss: Dial was still waiting on a silent peer 3 s after the context ended / the timeout elapsed"
       else if cls = "nil" then Viol "wss: Dial reported success against a peer that never answered"
       else if (mode = "ctxdl" && cls <> "deadline") || (mode = "cancel" && cls <> "canceled") then
         Viol "wss: the context ended before the handshake I/O finished, yet the error is not the context's error"
       else if closed <> "1" then Viol "wss: non-nil error but the conn was not closed"
+      else if rest = ["0"] then Viol "wss: Dial returned its error BEFORE the conn was closed (Close left to a goroutine that outlives Dial)"
       else Pass true
     | _ -> Diff "malformed line");
   register "C20S" (fun i o -> match i, o with
